@@ -102,11 +102,16 @@ def plainTy : Nat → Schemas → Ty → Bool
 
 def plainFuel : Nat := 16
 
-/-- every named non-struct object (alias of a scalar, array, map, enum, reference) is plain:
+/-- every named object that is not (an alias of) a struct — alias of a scalar, array, map, enum — is plain:
     the generated `Validate()` never looks behind a reference to such an object
     (`resolvesToConstraints` answers `ResolveRefs(t).IsStruct()` for references). -/
+def resolvesToStructTy (ss : Schemas) (t : Ty) : Bool :=
+  match resolveRefs ss t with
+  | some (.struct ..) => true
+  | _ => false
+
 def noConstrainedAlias (ss : Schemas) : Bool :=
   ss.all fun s => s.objects.all fun kv =>
-    kv.2.ty.isStruct || plainTy plainFuel ss (.ref s.pkg kv.1 {})
+    kv.2.ty.isStruct || resolvesToStructTy ss (.ref s.pkg kv.1 {}) || plainTy plainFuel ss (.ref s.pkg kv.1 {})
 
 end Cog.Sem
